@@ -102,3 +102,27 @@ for _f in DECO_FAMILIES:
 
 DECO_IMPORT = "<%! from harness.c05_rt import " + ", ".join("xd_" + f for f in DECO_FAMILIES) + \
     "\nfrom harness.tmpl_rt import flt1 %>"
+
+
+def typed_repr(v, depth=0):
+    """repr that names the type of the value and of everything inside it (a default must be bound to the value AND the
+    type Python binds); a callable is shown by what it returns for a few argument lists"""
+    t = type(v).__name__
+    if depth > 6:
+        return t + ":..."
+    if isinstance(v, (tuple, list)):
+        return "%s[%s]" % (t, ", ".join(typed_repr(x, depth + 1) for x in v))
+    if isinstance(v, (set, frozenset)):
+        return "%s{%s}" % (t, ", ".join(sorted(typed_repr(x, depth + 1) for x in v)))
+    if isinstance(v, dict):
+        return "%s{%s}" % (t, ", ".join("%s: %s" % (typed_repr(k, depth + 1), typed_repr(x, depth + 1))
+                                        for k, x in v.items()))
+    if callable(v) and t == "function":
+        outs = []
+        for args in ((), (5,), (5, 6)):
+            try:
+                outs.append("%r -> %s" % (args, typed_repr(v(*args), depth + 1)))
+            except TypeError:
+                outs.append("%r -> TypeError" % (args,))
+        return "function<%s>" % "; ".join(outs)
+    return "%s:%r" % (t, v)
